@@ -114,7 +114,13 @@ func (r *FunctionData[T]) DataCopyAny() any {
 
 func (r *FunctionData[T]) UpdateDataAny(remoteWrite, persist bool, newData any, filterPartial *model.FilterType, filterDelete *model.FilterType) (any, *model.ErrorType) {
 	// a delete filter does not need any data
-	typedData, _ := newData.(*T)
+	typedData, ok := newData.(*T)
+	if !ok && !util.IsNil(newData) {
+		// only missing data is acceptable, data of another type is a mistake of the caller
+		err := model.NewErrorTypeFromString(fmt.Sprintf("invalid data type '%T' for function '%s'", newData, r.functionType))
+		logging.Log().Debug(err.String())
+		return nil, err
+	}
 	data, err := r.UpdateData(remoteWrite, persist, typedData, filterPartial, filterDelete)
 	if err != nil {
 		logging.Log().Debug(err.String())
